@@ -13,7 +13,7 @@ Theorem C11_slice_fw_full_write sx sy dim off base nx ny R :
   tlower sy dim = base -> tget sy dim = ny -> tget sx dim = nx ->
   tsize sy = base * ny * R -> tsize sx = base * nx * R -> off + ny <= nx -> 0 < base -> 0 < ny ->
   sequential (slice_fw sx sy dim off) (tsize sy).
-Proof. intros H1 H2 H3 H4 H5 H6 H7 H8. exact (slice_fw_sequential sx sy dim off base nx ny R H1 H2 H3 H4 H5 H6 H7 H8). Qed.
+Proof. exact (slice_fw_sequential sx sy dim off base nx ny R). Qed.
 Print Assumptions C11_slice_fw_full_write.
 
 (* under the front-end guard offset + len <= n (in unbounded arithmetic) no read leaves x *)
@@ -21,7 +21,7 @@ Theorem C11_slice_fw_in_bounds sx sy dim off base nx ny R :
   tlower sy dim = base -> tget sy dim = ny -> tget sx dim = nx ->
   tsize sy = base * ny * R -> tsize sx = base * nx * R -> off + ny <= nx -> 0 < base -> 0 < ny ->
   mov_in_bounds (slice_fw sx sy dim off) [tsize sx].
-Proof. intros H1 H2 H3 H4 H5 H6 H7 H8. exact (slice_fw_in_bounds sx sy dim off base nx ny R H1 H2 H3 H4 H5 H6 H7 H8). Qed.
+Proof. exact (slice_fw_in_bounds sx sy dim off base nx ny R). Qed.
 Print Assumptions C11_slice_fw_in_bounds.
 
 Example C11_nonvacuous :
